@@ -2,9 +2,44 @@
 //! driver and the implementation's own answer in the same wire format.
 use crate::{Case, generate::Gen, rng::Rng, sexp};
 use anthem::{
+    convenience::{apply::Apply as _, compose::Compose as _},
     syntax_tree::{asp::mini_gringo as asp, fol::sigma_0 as fol},
     translating::classical_reduction::gamma::Gamma as _,
+    verif::simplifying_fol::sigma_0::{classic, ht, intuitionistic},
 };
+
+pub const PASS_BOUND: usize = 64;
+
+type Rewrite = fn(fol::Formula) -> fol::Formula;
+
+pub fn rewrites() -> Vec<(&'static str, Rewrite)> {
+    vec![
+        ("evaluate_comparisons", intuitionistic::evaluate_comparisons),
+        ("apply_negation_definition_inverse", intuitionistic::apply_negation_definition_inverse),
+        ("apply_reverse_implication_definition", intuitionistic::apply_reverse_implication_definition),
+        ("apply_equivalence_definition_inverse", intuitionistic::apply_equivalence_definition_inverse),
+        ("remove_identities", intuitionistic::remove_identities),
+        ("remove_annihilations", intuitionistic::remove_annihilations),
+        ("remove_idempotences", intuitionistic::remove_idempotences),
+        ("remove_orphaned_variables", intuitionistic::remove_orphaned_variables),
+        ("remove_empty_quantifications", intuitionistic::remove_empty_quantifications),
+        ("join_nested_quantifiers", intuitionistic::join_nested_quantifiers),
+        ("remove_double_negation", classic::CLASSIC[0]),
+        ("substitute_defined_variables", classic::CLASSIC[1]),
+        ("restrict_quantifier_domain", classic::CLASSIC[2]),
+        ("extend_quantifier_scope", classic::CLASSIC[3]),
+        ("simplify_transitive_equality", classic::CLASSIC[4]),
+    ]
+}
+
+/// The concatenations built by `procedures.rs` / the verification tasks.
+pub fn portfolio(name: &str) -> Vec<Rewrite> {
+    match name {
+        "intuitionistic" => [intuitionistic::INTUITIONISTIC].concat(),
+        "ht" => [intuitionistic::INTUITIONISTIC, ht::HT].concat(),
+        _ => [intuitionistic::INTUITIONISTIC, ht::HT, classic::CLASSIC].concat(),
+    }
+}
 use std::{panic::catch_unwind, path::Path};
 
 fn guarded(f: impl FnOnce() -> String + std::panic::UnwindSafe) -> String {
@@ -52,6 +87,9 @@ pub fn run(suite: &str, seed: u64, n: usize, corpus: Option<&Path>) -> Vec<Case>
     match suite {
         "echo" => echo(seed, n, corpus),
         "gamma" => gamma(seed, n, corpus),
+        "substitute" => substitute(seed, n, corpus),
+        "rewrite" => rewrite(seed, n, corpus),
+        "simplify" => simplify(seed, n, corpus),
         _ => {
             eprintln!("unknown suite {suite}");
             std::process::exit(2)
@@ -85,4 +123,110 @@ fn gamma(seed: u64, n: usize, corpus: Option<&Path>) -> Vec<Case> {
             Case { req: format!("(gamma {input})"), nontrivial: imp != input, imp, tag: "gamma", origin }
         })
         .collect()
+}
+
+fn substitute(seed: u64, n: usize, corpus: Option<&Path>) -> Vec<Case> {
+    let mut cases = vec![];
+    // corpus: `formula ;; variable ;; term`
+    let mut triples: Vec<(String, fol::Formula, fol::Variable, fol::GeneralTerm)> = vec![];
+    for l in corpus_lines(corpus, "substitute") {
+        let parts: Vec<&str> = l.split(";;").map(str::trim).collect();
+        if parts.len() == 3 {
+            if let (Ok(f), Ok(v), Ok(t)) = (parts[0].parse(), parts[1].parse(), parts[2].parse()) {
+                triples.push((format!("corpus:{l}"), f, v, t));
+            }
+        }
+    }
+    let mut rng = Rng::new(seed ^ 0x5157);
+    for i in 0..n {
+        let mut g = Gen::new(rng.fork());
+        g.nvars = 2 + g.rng.below(6);
+        g.npreds = 2 + g.rng.below(3);
+        let depth = 1 + g.rng.below(4);
+        let f = g.formula(depth);
+        // prefer a variable that occurs in the formula
+        let fv: Vec<fol::Variable> = f.variables().into_iter().collect();
+        let v = if !fv.is_empty() && g.rng.chance(4, 5) { g.rng.pick(&fv).clone() } else { g.variable() };
+        let t = if g.rng.chance(1, 12) { g.gterm(2) } else { g.term_of_sort(v.sort, 2) };
+        triples.push((format!("seed:{seed}:{i}"), f, v, t));
+    }
+    for (origin, f, v, t) in triples {
+        let input = sexp::formula(&f);
+        let req = format!("(substitute {input} {} {})", sexp::var(&v), sexp::gterm(&t));
+        let imp = guarded(move || sexp::formula(&f.substitute(v, t)));
+        cases.push(Case { req, nontrivial: imp != input, imp, tag: "substitute", origin });
+    }
+    cases
+}
+
+fn rewrite(seed: u64, n: usize, corpus: Option<&Path>) -> Vec<Case> {
+    let mut cases = vec![];
+    let rws = rewrites();
+    let mut counter = 0usize;
+    for (origin, f) in formulas(seed ^ 0x77, n, corpus, &["formulas", "simplify"]) {
+        let input = sexp::formula(&f);
+        for (name, r) in &rws {
+            let g = f.clone();
+            let r = *r;
+            let imp = guarded(move || sexp::formula(&r(g)));
+            let nontrivial = imp != input;
+            // keep all non-trivial cases, sample the identity ones
+            counter += 1;
+            if nontrivial || counter % 7 == 0 {
+                cases.push(Case { req: format!("(rewrite {name} {input})"), nontrivial, imp, tag: name, origin: origin.clone() });
+            }
+        }
+    }
+    cases
+}
+
+/// `apply_fixpoint` with a pass bound (the real one is called as well when the bounded loop converges).
+fn bounded_fixpoint(f: fol::Formula, op: &mut impl FnMut(fol::Formula) -> fol::Formula) -> (fol::Formula, bool) {
+    let mut previous = f;
+    let mut current = previous.clone().apply(op);
+    let mut passes = 0;
+    while previous != current {
+        if passes >= PASS_BOUND {
+            return (current, false);
+        }
+        passes += 1;
+        previous = current;
+        current = previous.clone().apply(op);
+    }
+    (current, true)
+}
+
+fn simplify(seed: u64, n: usize, corpus: Option<&Path>) -> Vec<Case> {
+    let mut cases = vec![];
+    for (origin, f) in formulas(seed ^ 0x99, n, corpus, &["formulas", "simplify"]) {
+        let input = sexp::formula(&f);
+        for pname in ["intuitionistic", "ht", "classic"] {
+            for sname in ["shallow", "recursive", "fixpoint"] {
+                let g = f.clone();
+                let imp = guarded(move || {
+                    let mut op = portfolio(pname).into_iter().compose();
+                    match sname {
+                        "shallow" => format!("(ok {})", sexp::formula(&op(g))),
+                        "recursive" => format!("(ok {})", sexp::formula(&g.apply(&mut op))),
+                        _ => {
+                            let (r, ok) = bounded_fixpoint(g.clone(), &mut op);
+                            if ok {
+                                // the real loop must agree with the bounded one
+                                let real = g.apply_fixpoint(&mut op);
+                                if real != r {
+                                    return format!("(fixpoint-mismatch {})", sexp::formula(&real));
+                                }
+                                format!("(ok {})", sexp::formula(&r))
+                            } else {
+                                format!("(timeout {})", sexp::formula(&r))
+                            }
+                        }
+                    }
+                });
+                let nontrivial = imp != format!("(ok {input})");
+                cases.push(Case { req: format!("(simplify {pname} {sname} {PASS_BOUND} {input})"), nontrivial, imp, tag: sname, origin: origin.clone() });
+            }
+        }
+    }
+    cases
 }
